@@ -10,6 +10,9 @@ func assertFunctions(fns []*funcDef) error {
 
 	nameMap := make(map[string]bool)
 	for _, funcDef := range fns {
+		if funcDef == nil {
+			return errFuncParamsMismatch
+		}
 		if _, exists := nameMap[funcDef.Name]; exists {
 			return errDuplicateFunction
 		}
@@ -34,7 +37,7 @@ func assertFunctions(fns []*funcDef) error {
 // assertStepDef validates the step definition.
 func assertStepDef(def *stepDef, funcs []*funcDef) error {
 	// Step name is required.
-	if def.Name == "" {
+	if def == nil || def.Name == "" {
 		return errStepNameRequired
 	}
 
@@ -49,7 +52,7 @@ func assertStepDef(def *stepDef, funcs []*funcDef) error {
 		calledFunc := def.Call.Function
 		calledFuncDef := &funcDef{}
 		for _, funcDef := range funcs {
-			if funcDef.Name == calledFunc {
+			if funcDef != nil && funcDef.Name == calledFunc {
 				calledFuncDef = funcDef
 				break
 			}
